@@ -9,7 +9,9 @@ from ``f``) optionally followed by ``return x|y|z``; only bodies that never
 read an unbound name are generated.  Three families are enumerated completely
 (``BOUNDS``): A = every ``f`` with N <= 3 (quick) / 4 (thorough) and a fixed
 ``g``; B = every ``g`` with the same N and the identity ``f``; C = every pair
-with (N_f, N_g) = (2, 1) (quick) / (3, 1) and (2, 2) (thorough).  Every program
+with (N_f, N_g) = (2, 1) (quick) / (3, 1) and (2, 2) (thorough); D = control-flow
+shapes across the two code objects; E = every ``f`` (N <= 3) that calls ``g`` x
+every ``g`` (N <= 2 / 3) that stores the global.  Every program
 is loaded through pynguin's real import hook with CHECKED+LINE instrumentation
 and the test case
 
